@@ -101,6 +101,12 @@ def run(ctx, drv):
                         lambda g, popids=popids, detail=detail: None if g.split()[1:] == ([str(i) for i in popids] or ["-"])
                         else ctx.disagree("NSGA-II survival (nsga2Survival) = next population", detail, popids, g.split()[1:]))
                     ctx.count("nsga2_generations_replayed")
+                elif name == "SPEA2":
+                    kk = getattr(alg, "k", 1)
+                    ask(f"spea2 {int(constrained)} {dirs_w(dirs)} {N} {kk} {len(merged)} " + " ".join(solw(x) for x in merged),
+                        lambda g, popids=popids, detail=detail: None if g.split()[1:] == ([str(i) for i in popids] or ["-"])
+                        else ctx.disagree("SPEA2 survival (spea2Survival: fitness, distance matrix, truncation) = next population", detail, popids, g.split()[1:]))
+                    ctx.count("spea2_generations_replayed")
                 elif name == "GDE3" and len(offspring) == len(parents):
                     ask(f"gde3 {int(constrained)} {dirs_w(dirs)} {N} {len(offspring)} " + " ".join(solw(x) for x in offspring) +
                         f" {len(parents)} " + " ".join(solw(x) for x in parents),
@@ -153,6 +159,45 @@ def run(ctx, drv):
                                  "new best is worse", "never worse", f"algorithms.{name}")
                     prev_best = best
                     ctx.case((name, cfg["seed"], si, "best"), si > 0)
+    # ---- SPEA2's environmental selection as a function: random merged populations (grids force ties in the distance matrix)
+    from platypus import algorithms as A_
+    from plat import mk_problem, mk_sol
+    for t in range(300 if ctx.quick() else 6000):
+        nobj = rng.choice([1, 2, 2, 3])
+        dirs = tuple(rng.random() < 0.3 for _ in range(nobj))
+        con = rng.random() < 0.3
+        p = mk_problem(nobj, dirs, con)
+        n = rng.randrange(3, 14)
+        N = rng.randrange(1, n + 1)
+        kk = rng.choice([1, 1, 0, 2])
+        grid = rng.choice([[0, 1, 2], [0, 1, 2, 3, 4], None])
+        sols = [mk_sol(p, [float(rng.choice(grid)) if grid else rng.uniform(0, 1) for _ in range(nobj)], float(rng.choice([0, 0, 1, 2])) if con else 0.0) for _ in range(n)]
+        alg = A_.SPEA2(p, population_size=N, k=kk)
+        inp = {"maximise": list(dirs), "constrained": con, "N": N, "k": kk, "merged": [[list(map(float, s.objectives)), float(s.constraint_violation)] for s in sols]}
+
+        def go(alg=alg, sols=sols, N=N):
+            alg._assign_fitness(sols)
+            return alg._truncate(sols, N)
+        r = plat.call(go)
+        if isinstance(r, str):
+            obs = "err:index" if r in ("err:IndexError", "err:index") else r
+        else:
+            ids = [id(x) for x in sols]
+            obs = "v " + (" ".join(str(ids.index(id(s))) for s in r) if r else "-")
+            # oracle (statement of C09): non-dominated members survive if they fit, else only they survive; never more than N
+            nd = [i for i, s in enumerate(sols) if not any(plat.expected_cmp(con, dirs, t_, s) < 0 for t_ in sols)]
+            surv = [ids.index(id(s)) for s in r]
+            if len(surv) > N or len(set(surv)) != len(surv):
+                ctx.fail("survivors-exceed-population-size", inp, surv, f"at most {N} distinct members", "algorithms.SPEA2._truncate")
+            elif len(nd) <= N and not set(nd) <= set(surv):
+                ctx.fail("nondominated-front-not-retained", inp, surv, f"all of {nd}", "algorithms.SPEA2._truncate")
+            elif len(nd) > N and not set(surv) <= set(nd):
+                ctx.fail("survivor-outside-front-although-front-overflows", inp, surv, f"only members of {nd}", "algorithms.SPEA2._truncate")
+        ask(f"spea2 {int(con)} {dirs_w(dirs)} {N} {kk} {n} " + " ".join(f"{i} {wf(float(s.constraint_violation))} {wlist(list(map(float, s.objectives)), wf)}" for i, s in enumerate(sols)),
+            lambda g, obs=obs, inp=inp: None if g.strip() == obs.strip()
+            else ctx.disagree("SPEA2 _assign_fitness + _truncate as a function (spea2Survival)", inp, obs, g))
+        ctx.case(("spea2fn", repr(inp)), n > N)
+    ctx.count("spea2_function_cases", 300 if ctx.quick() else 6000)
     if drv.ok:
         out = drv.batch(reqs)
         for g, fn in zip(out, post):
